@@ -1,9 +1,9 @@
 from pyvc.contracts import contract, REGISTRY
 from pyvc.shapes import *
-from specs.dwarf import StructsT, CUT
+from specs.dwarf import StructsT, CUT, SecT
 from specs.lists import gaddr, word_at_addr, offset_word, is_kind, rnglist_at, loclist_at, has_base, base_of, loc_off, u16_at
 
-DInfoT = Obj('DWARFInfo', debug_addr_sec=Any, structs=StructsT)
+DInfoT = Obj('DWARFInfo', debug_addr_sec=Opt(SecT), structs=StructsT)
 CUArg = Obj('CompileUnit', cu_offset=Nat, dwarfinfo=DInfoT, header=Rec(version=U16, address_size=U8), structs=StructsT)
 COMMON = dict(entry_offset=Nat, entry_length=Nat, entry_end_offset=Nat, entry_type=CodeT(8))
 RangeEntryT = Rec('RangeEntry', entry_offset=Nat, entry_length=Nat, begin_offset=Int, end_offset=Int, is_absolute=Bool)
@@ -16,10 +16,11 @@ FIELD = dict(index=Nat, start_index=Nat, end_index=Nat, length=Nat, start_offset
 
 @contract("elftools/dwarf/dwarfinfo.py", "DWARFInfo.get_addr", props=["C07"])
 class get_addr:
-    """(assumed at the translators' call sites) the address at index: .debug_addr[addr_base + index * address_size]"""
-    mode = 'assume'
+    """the address at an index of the unit's address table (7.27): the address-sized word at
+    DW_AT_addr_base + index * address_size of .debug_addr; no section, no address"""
+    params = dict(self=SameAs('cu.dwarfinfo'), cu=CUArg, addr_index=Nat)
     returns = Nat
-    ensures = ["result == gaddr(cu, addr_index)"]
+    ensures = ["self.debug_addr_sec is not None", "has_base(cu, 'DW_AT_addr_base')", "result == gaddr(cu, addr_index)"]
     may_raise = ["DWARFError", "ELFParseError", "OverflowError"]
 
 
